@@ -10,7 +10,9 @@ CASES_HEADER = "Require Import Nib.C14.Model Nib.C14.Spec Nib.C14.Check."
 CASE_TYPE = "case"
 MISMATCH_FN = "mismatch"
 VIOLATES_FN = "violates"
-RULE = ("cases = 1-3 epoch definitions (zero / past / present / future start time, durations 1ns..1 week, re-imported running "
+RULE = ("cases = 1-5 epoch definitions side by side, identifiers drawn from 28 arbitrary strings (plain, leading / trailing / inner "
+        "whitespace, tab, newline, no-break space, whitespace-only, upper/lower-case variants, non-ASCII, prefixes of one "
+        "another) at genesis and later (zero / past / present / future start time, durations 1ns..1 week, re-imported running "
         "epochs; ~20% of cases carry malformed definitions: zero or negative duration, empty or duplicate identifier, "
         "inconsistent counters) followed by 6-22 ops: BeginBlocker at generated times (steps 0, 1ns, d/3, d/2, d-1, d, d+1, 2d, "
         "3..9d+d/3 of a defined duration d; 10% of direct cases also step backwards) and later AddEpochInfo calls; 1 case in 8 "
@@ -62,9 +64,11 @@ def _ranks(rec):
             names.add(op.get("ident", ""))
     for e in rec["obs"]["init"] or []:
         names.add(e["ident"])
+        names.add(e.get("key", e["ident"]))
     for o in rec["obs"]["ops"]:
         for e in o.get("infos") or []:
             names.add(e["ident"])
+            names.add(e.get("key", e["ident"]))
         for c in o.get("log") or []:
             names.add(c["ident"])
     names.discard("")
@@ -106,8 +110,9 @@ def _to_coq_case(rec):
                 "None" if st is None else "(Some %s)" % z(st), z(op.get("dur", 0)), z(op.get("cur", 0)),
                 z(ZERO_TIME if cs is None else cs), z(op.get("height", 0)), "true" if op.get("started") else "false"))
             t = "Add %s %s %s" % (z(o["t"]), z(o["h"]), a)
-        ob = "(Build_obs %s [%s] [%s])" % (
+        ob = "(Build_obs %s [%s] [%s] [%s])" % (
             "true" if o["ok"] else "false", "; ".join(_info(e, rk) for e in o["infos"] or []),
+            "; ".join(str(rk[e.get("key", e["ident"])]) for e in o["infos"] or []),
             "; ".join(_hook(c, rk) for c in o["log"] or []))
         items.append("(%s, %s)" % (t, ob))
     f = rec["input"].get("fail")
@@ -176,7 +181,20 @@ def nontrivial(rec):
 
 
 def classify(rec):
-    ks = ["mode:" + rec["input"]["mode"], "ops=%d" % (len(rec["input"]["ops"]) // 5 * 5)]
+    idents = [op.get("ident", "") for op in (rec["input"].get("genesis") or []) + rec["input"]["ops"] if op["op"] == "add"]
+    extra = []
+    if any(i != i.strip() for i in idents):
+        extra.append("identifier-padded")
+    if any(i and not i.strip() for i in idents):
+        extra.append("identifier-whitespace-only")
+    if any(not i.isascii() for i in idents):
+        extra.append("identifier-non-ascii")
+    fold = [i.strip().lower() for i in idents if i]
+    if len(set(fold)) < len(set(i for i in idents if i)):
+        extra.append("identifiers-equal-modulo-padding-or-case")
+    if any(a != b and b.startswith(a) for a in idents for b in idents if a):
+        extra.append("identifier-prefix-of-another")
+    ks = extra + ["mode:" + rec["input"]["mode"], "ops=%d" % (len(rec["input"]["ops"]) // 5 * 5)]
     if rec["input"].get("fail"):
         ks.append("failing-receiver:" + rec["input"]["fail"]["kind"])
     seen = set()
